@@ -1,2 +1,3 @@
 //! Reference models and generators shared by the property checks (written from the RFCs).
 pub mod glob;
+pub mod refs;
